@@ -26,7 +26,7 @@ RULE = ("interpolation: label vectors over {0,1,2,3} (isolated, clusters of adja
 ASSUMPTIONS = ["a bad channel's admissible neighbours = non-bad channels whose distance-decay weight exp(-(d/20um)^1.3) is >= 0.005 (d <= 72.1 um)",
                "detection is judged on generated backgrounds only; the feature margins measured on the run are written to the evidence",
                "mode over batches is asserted only without ties (7/3 splits)"]
-REQUIRED = {"file_mode_headers_announcing_less_than_the_file_holds": 1, "interp_cases": 40, "nonfinite_bad_rows": 20, "bad_rows_checked": 100, "untouched_rows_checked": 40, "detection_cases": 20, "file_mode_cases": 2, "spied_batches": 20, "plurality_channels": 1, "file_mode_cbin": 1, "file_mode_np1_own_maxint": 1, "file_mode_short_recordings": 1, "detection_offset_recordings": 8}
+REQUIRED = {"detection_extreme_noise_recordings": 6, "file_mode_headers_announcing_less_than_the_file_holds": 1, "interp_cases": 40, "nonfinite_bad_rows": 20, "bad_rows_checked": 100, "untouched_rows_checked": 40, "detection_cases": 20, "file_mode_cases": 2, "spied_batches": 20, "plurality_channels": 1, "file_mode_cbin": 1, "file_mode_np1_own_maxint": 1, "file_mode_short_recordings": 1, "detection_offset_recordings": 8}
 CASE_TIMEOUT = 200.0
 KINDS = ["3B2", "NP2.1", "NP2.4", "NPultra"]
 
@@ -214,7 +214,16 @@ def run_case(case):
                 # a strongly noisy channel INSIDE the outside-brain block is still a noisy channel (and must be repaired, not ignored)
                 noisy = np.r_[noisy, nc - 1 - int(rng.integers(1, ntop - 2))]
             x[dead] = rng.standard_normal((dead.size, ns)) * 1e-7
-            if rng.random() < 0.5:
+            extreme = cls == "detect" and rep == 0
+            if extreme:
+                # round 22: a quiet recording (common component 10 uV) with ONE channel railing - broadband noise of 4-8 mV, several hundred times the
+                # background (a broken site on a low-gain channel): it is noisy, and it is the only thing it changes
+                x *= 0.25
+                x[dead] = rng.standard_normal((dead.size, ns)) * 1e-7
+                noisy = noisy[:1]
+                x[noisy] = rng.standard_normal((noisy.size, ns)) * float(rng.uniform(4e-3, 8e-3))
+                res.count("detection_extreme_noise_recordings")
+            elif rng.random() < 0.5:
                 x[noisy] += rng.standard_normal((noisy.size, ns)) * 200e-6
             else:                       # strong broadband noise and nothing else on that channel
                 x[noisy] = rng.standard_normal((noisy.size, ns)) * 200e-6
@@ -233,7 +242,7 @@ def run_case(case):
                 continue
             wrong = np.flatnonzero(lab != exp)
             if wrong.size:
-                key = "detect:labels" + (":dc-offsets" if cls == "detect-offsets" else "")
+                key = "detect:labels" + (":dc-offsets" if cls == "detect-offsets" else "") + (":one-railing-channel" if (cls == "detect" and rep == 0) else "")
                 if wrong.tolist() == [0] and 0 in dead.tolist() and lab[0] == 0:
                     key = "detect:dead-channel-0-missed"      # mechanism: the 11-point median detrend pads the edge with the edge value itself
                 res.violation(key, f"{label}: labels differ at channels {wrong[:8].tolist()}: got {lab[wrong][:8].tolist()} expected {exp[wrong][:8].tolist()} "
